@@ -7,7 +7,11 @@ use std::panic::{catch_unwind, AssertUnwindSafe};
 use std::sync::Mutex;
 use std::time::Instant;
 
-pub const VERIF_DIR: &str = "/verif";
+/// Where evidence, replays and the known-findings file live. Overridable (VERIF_DIR_OVERRIDE) only for the detection
+/// self-test, which runs a scratch copy of the harness against a scratch copy of the repository.
+pub fn verif_dir() -> String {
+    std::env::var("VERIF_DIR_OVERRIDE").unwrap_or_else(|_| "/verif".to_string())
+}
 
 thread_local! {
     static LAST_PANIC: std::cell::RefCell<Option<String>> = const { std::cell::RefCell::new(None) };
@@ -239,7 +243,7 @@ pub struct Finish {
 }
 
 fn load_known() -> Vec<Value> {
-    let p = format!("{}/known_findings.json", VERIF_DIR);
+    let p = format!("{}/known_findings.json", verif_dir());
     match std::fs::read_to_string(&p) {
         Ok(s) => serde_json::from_str::<Value>(&s)
             .ok()
@@ -286,7 +290,7 @@ pub fn finish(ctx: &RunCtx, mut rep: Report, fin: Finish) -> i32 {
 
     let mut new_violations = 0;
     let mut known_seen = vec![];
-    let _ = std::fs::create_dir_all(format!("{}/replays", VERIF_DIR));
+    let _ = std::fs::create_dir_all(format!("{}/replays", verif_dir()));
     let mut lines = vec![];
     for (key, (v, count)) in &rep.violations {
         if let Some(what) = is_known(key) {
@@ -299,7 +303,7 @@ pub fn finish(ctx: &RunCtx, mut rep: Report, fin: Finish) -> i32 {
         }
         new_violations += 1;
         let digest = format!("{:016x}", hash64(key));
-        let path = format!("{}/replays/{}-{}.json", VERIF_DIR, ctx.property, digest);
+        let path = format!("{}/replays/{}-{}.json", verif_dir(), ctx.property, digest);
         let body = json!({
             "property": ctx.property,
             "finding_key": key,
@@ -352,8 +356,8 @@ pub fn finish(ctx: &RunCtx, mut rep: Report, fin: Finish) -> i32 {
         "wall_s": wall,
         "violations": new_violations,
     });
-    let _ = std::fs::create_dir_all(format!("{}/evidence", VERIF_DIR));
-    let evp = format!("{}/evidence/{}.json", VERIF_DIR, ctx.property);
+    let _ = std::fs::create_dir_all(format!("{}/evidence", verif_dir()));
+    let evp = format!("{}/evidence/{}.json", verif_dir(), ctx.property);
     if let Err(e) = std::fs::write(&evp, serde_json::to_string_pretty(&ev).unwrap()) {
         machinery_error = Some(format!("cannot write evidence {}: {}", evp, e));
     }
